@@ -420,11 +420,11 @@ def model(ctx, box):
     out = os.path.join(ctx.scratch, 'c20_universe.json')
     for part in ('algebra', 'deriv', 'assemble'):
         ctx.model_must_hold('MC_C20', 'MC_C20.cfg', env={'MC_TIER': ctx.tier, 'MC_PART': part, 'MC_MUT': 'none', 'OUT_FILE': out},
-                            timeout=3000 if thorough else 600, workers=6)
+                            timeout=3000 if thorough else 600, workers=6, xmx='6g')
     rejected = {}
     for mut in ('dataij', 'rhssign'):
         r = ctx.tlc_model('MC_C20', 'MC_C20.cfg', env={'MC_TIER': 'quick', 'MC_PART': 'assemble', 'MC_MUT': mut, 'OUT_FILE': ''},
-                          timeout=600, workers=2, label=f'seeded model deviation {mut} (violation expected)')
+                          timeout=600, workers=2, xmx='6g', label=f'seeded model deviation {mut} (violation expected)')
         rejected[mut] = bool(r['violated'])
     ctx.notes['model_deviations_rejected'] = rejected
     box['universe'] = out
@@ -471,7 +471,7 @@ def run(ctx):
             n_tlc += 1
     ctx.notes['scenarios_from_tlc_universe'] = n_tlc
     ctx.notes['skipped_too_large'] = sum(1 for s in scs if not s['events'])
-    ctx.validate('TraceC20', scs)
+    ctx.validate('TraceC20', scs, jvms=8)
     keys = {json.dumps([s['tags'], s['recipe'].get('R'), s['recipe'].get('x'), s['recipe'].get('args')], sort_keys=True)
             for s in scs if s['events']}
     ctx.notes['distinct_nontrivial'] = len(keys)
@@ -487,8 +487,8 @@ def replay(ctx, doc):
     if sc.get('recipe', {}).get('driver') == 'model':
         for part in ('algebra', 'deriv', 'assemble'):
             ctx.model_must_hold('MC_C20', 'MC_C20.cfg', env={'MC_TIER': ctx.tier, 'MC_PART': part, 'MC_MUT': 'none', 'OUT_FILE': ''},
-                                timeout=900, workers=4)
+                                timeout=900, workers=4, xmx='6g')
         return ctx.finish(rule=RULE)
     sc2 = scenario(sc['id'], sc['recipe'], sc.get('tags', {}))
-    ctx.validate('TraceC20', [sc2])
+    ctx.validate('TraceC20', [sc2], jvms=8)
     return ctx.finish(rule=RULE)
